@@ -9,7 +9,8 @@ impl<const BITS: usize, const LIMBS: usize> Uint<BITS, LIMBS> {
     #[inline]
     #[must_use]
     pub fn checked_log(self, base: Self) -> Option<usize> {
-        if base < Self::from(2) || self.is_zero() {
+        // `base < 2`, without constructing a 2 that may not fit the type.
+        if base.bit_len() < 2 || self.is_zero() {
             return None;
         }
         Some(self.log(base))
@@ -21,6 +22,10 @@ impl<const BITS: usize, const LIMBS: usize> Uint<BITS, LIMBS> {
     #[inline]
     #[must_use]
     pub fn checked_log10(self) -> Option<usize> {
+        if BITS < 4 {
+            // 10 does not fit the type, so every non-zero value is below it.
+            return if self.is_zero() { None } else { Some(0) };
+        }
         self.checked_log(Self::from(10))
     }
 
@@ -32,7 +37,10 @@ impl<const BITS: usize, const LIMBS: usize> Uint<BITS, LIMBS> {
     #[inline]
     #[must_use]
     pub fn checked_log2(self) -> Option<usize> {
-        self.checked_log(Self::from(2))
+        if self.is_zero() {
+            return None;
+        }
+        Some(self.bit_len() - 1)
     }
 
     /// Returns the logarithm of the number, rounded down.
@@ -44,8 +52,10 @@ impl<const BITS: usize, const LIMBS: usize> Uint<BITS, LIMBS> {
     #[must_use]
     pub fn log(self, base: Self) -> usize {
         assert!(!self.is_zero());
-        assert!(base >= Self::from(2));
-        if base == Self::from(2) {
+        // `base >= 2` and `base == 2`, without constructing a 2 that may not
+        // fit the type.
+        assert!(base.bit_len() >= 2);
+        if base.bit_len() == 2 && !base.bit(0) {
             return self.bit_len() - 1;
         }
         if self < base {
@@ -96,6 +106,11 @@ impl<const BITS: usize, const LIMBS: usize> Uint<BITS, LIMBS> {
     #[inline]
     #[must_use]
     pub fn log10(self) -> usize {
+        if BITS < 4 {
+            // 10 does not fit the type, so every non-zero value is below it.
+            assert!(!self.is_zero());
+            return 0;
+        }
         self.log(Self::from(10))
     }
 
@@ -107,7 +122,8 @@ impl<const BITS: usize, const LIMBS: usize> Uint<BITS, LIMBS> {
     #[inline]
     #[must_use]
     pub fn log2(self) -> usize {
-        self.log(Self::from(2))
+        assert!(!self.is_zero());
+        self.bit_len() - 1
     }
 
     /// Double precision logarithm.
